@@ -32,7 +32,10 @@ def check_member(spec, h, evs, partners, args, via_file):
         return [core.v_exc(PROP, "roundtrip", "toJson / json.dumps(allow_nan=False) raised", e, args)]
     d = C.diff(doc, R.ref_doc(spec, evs))
     if d:
-        # content errors belong to other properties; stop here so that C04 only speaks about serialisation
+        if C.diff(doc, R.ref_doc(spec, evs), drop_names=True) is None:
+            # only quantity names differ: toJson() itself loses (or invents) a name - that is C04's business
+            return [core.v_diff(PROP, "roundtrip", "toJson() does not carry the quantity names of the tree", d, doc, args)]
+        # other content errors belong to other properties; stop here so that C04 only speaks about serialisation
         return out
     loaders = [("fromJson(dict)", lambda: hg.Factory.fromJson(json.loads(text))),
                ("fromJsonString", lambda: hg.Factory.fromJsonString(text)),
